@@ -281,6 +281,12 @@ def gcc_like(ctx):
         if depfile:
             text = '{}: {}'.format(dep_escape(out), dep_escape(src))
             for s in seen:
+                # like gcc: a forced include satisfied from a .gch is not
+                # listed (nor is anything reached only through it), so the
+                # build file's own edge to the precompiled header is the
+                # only one
+                if s.endswith('.gch'):
+                    continue
                 text += ' \\\n {}'.format(dep_escape(s))
             extra.append((depfile, text + '\n'))
         ctx.finish('OBJ', [out], extra)
